@@ -78,6 +78,7 @@ def extract(shadow):
             if 'template< size_t S>' in sig:
                 tinst_s.append('def')
                 p = p.replace('template< size_t L> template< size_t S>', 'template< size_t L>', 1).replace('FixedString< S>', 'FixedString< CV_S>')
+                p = re.sub(r'\bS\b', 'CV_S', p)   # any other use of the template parameter in the body
                 p = p.replace('FixedString< L>::FixedString( const FixedString< CV_S>& other)', 'FixedString< L>::FixedString( const FixedString< CV_S>& other, int)')
                 p = p.replace('FixedString< L>::operator =( const FixedString< CV_S>& str)', 'FixedString< L>::cv_op_assign( const FixedString< CV_S>& str)')
             keep.append(p)
@@ -132,10 +133,10 @@ def extract(shadow):
         Rule('R-THROW', r'throw std::out_of_range\([^;]*\);', 'CV_THROW( 1);', 2, flags=re.M | re.S),
         # T-INST: the two-parameter free operator templates cannot be instantiated by the front end;
         # bind S := CV_S (the second capacity of the proof instance) and give them a callable name (bodies untouched)
-        Rule('T-INST-opeq', r'template< size_t L, size_t S>\n   bool operator ==\( const FixedString< L>& lhs, const FixedString< S>& rhs\)',
-             'template< size_t L>\n   bool cv_op_eq( const FixedString< L>& lhs, const FixedString< CV_S>& rhs)', 1),
-        Rule('T-INST-opne', r'template< size_t L, size_t S>\n   bool operator !=\( const FixedString< L>& lhs, const FixedString< S>& rhs\)',
-             'template< size_t L>\n   bool cv_op_ne( const FixedString< L>& lhs, const FixedString< CV_S>& rhs)', 1),
+        Rule('T-INST-opeq', r'template< size_t L, size_t S>\n   bool operator ==\( const FixedString< L>& lhs, const FixedString< S>& rhs\)(.*?\n\} // operator ==)',
+             lambda m: 'template< size_t L>\n   bool cv_op_eq( const FixedString< L>& lhs, const FixedString< CV_S>& rhs)' + re.sub(r'\bS\b', 'CV_S', m.group(1)), 1, flags=re.M | re.S),
+        Rule('T-INST-opne', r'template< size_t L, size_t S>\n   bool operator !=\( const FixedString< L>& lhs, const FixedString< S>& rhs\)(.*?\n\} // operator !=)',
+             lambda m: 'template< size_t L>\n   bool cv_op_ne( const FixedString< L>& lhs, const FixedString< CV_S>& rhs)' + re.sub(r'\bS\b', 'CV_S', m.group(1)), 1, flags=re.M | re.S),
         # const iterators: both instantiations are bound to the same class (the front end loses const on class types)
         Rule('R-CONST-iter', r'(return detail::FixedString(?:Reverse)?Iterator\( (?:true, )?)this\);(\n\} // FixedString< L>::c?r?(?:begin|end)\n)', r'\1const_cast< FixedString*>( this));\2', 12),
         Rule('T-INST-fwd', r'^template< size_t L> class FixedString\n', 'namespace detail { class FixedStringIterator; class FixedStringReverseIterator; }\ntemplate< size_t L> class FixedString\n', 1),
